@@ -15,9 +15,11 @@ D2f == <<Abs, Sc("false")>>
 Slot(src, p, dom) == [src |-> src, p |-> p, dom |-> dom]
 Fix(src, p, v)    == [src |-> src, p |-> p, v |-> v]
 Dep(n, a, c, t)   == [name |-> n, alias |-> a, cond |-> c, tags |-> t]
-Ch(deps)          == [deps |-> deps, schema |-> <<>>, crds |-> TRUE]
+Ch(deps)          == [deps |-> deps, schema |-> <<>>, crds |-> TRUE, notpl |-> FALSE]
+\* a pure grouping chart: Chart.yaml, values, dependencies, crds/ - but no templates/ directory
+ChNoTpl(deps)     == [deps |-> deps, schema |-> <<>>, crds |-> TRUE, notpl |-> TRUE]
 \* a chart whose values.schema.json is violated by its own defaults (zz must be a string, is 1)
-ChBad(deps)       == [deps |-> deps, schema |-> <<[k |-> "type", p |-> <<"zz">>, a |-> <<"string">>]>>, crds |-> TRUE]
+ChBad(deps)       == [deps |-> deps, schema |-> <<[k |-> "type", p |-> <<"zz">>, a |-> <<"string">>]>>, crds |-> TRUE, notpl |-> FALSE]
 
 \* every chart has a default of its own that must never leak anywhere else
 Own == <<Fix("root", <<"b">>, "s:root"), Fix("mid", <<"b">>, "s:mid"), Fix("leaf", <<"b">>, "s:leaf"),
@@ -91,6 +93,23 @@ Depth3(d, dc) ==
                Slot("user", <<"mid", "leaf", "en">>, dc), Slot("mid", <<"leaf", "en">>, d), Slot("leaf", <<"en">>, d),
                Slot("user", <<"tags", "t1">>, d), Slot("user", <<"tags", "t2">>, D4)>>]
 
+\* tags given in the MIDDLE chart's own values.yaml (the chart that declares the tagged dependency), at the root, or both
+Depth3Tags ==
+  [name |-> "d3g", fixed |-> Own,
+   charts |-> [root |-> Ch(<<Dep("mid", "", NoC, NoT)>>),
+               mid  |-> Ch(<<Dep("leaf", "", <<<<"leaf", "en">>>>, <<"t2", "t1">>)>>), leaf |-> Ch(<<>>)],
+   slots |-> <<Slot("user", <<"mid", "leaf", "en">>, D3), Slot("mid", <<"tags", "t2">>, D4), Slot("user", <<"tags", "t2">>, D4),
+               Slot("root", <<"tags", "t2">>, D3), Slot("mid", <<"tags", "t1">>, D3)>>]
+
+\* the middle chart has no templates at all: its dependencies are rendered all the same
+NoTemplates ==
+  [name |-> "nt", fixed |-> Own,
+   charts |-> [root |-> Ch(<<Dep("mid", "", <<<<"mid", "en">>>>, NoT), Dep("oth", "", NoC, NoT)>>),
+               mid  |-> ChNoTpl(<<Dep("leaf", "", <<<<"leaf", "en">>>>, NoT), Dep("leaf", "g2", NoC, <<"t1">>)>>),
+               oth |-> ChNoTpl(<<>>), leaf |-> Ch(<<>>)],
+   slots |-> <<Slot("user", <<"mid", "en">>, D3), Slot("user", <<"mid", "leaf", "en">>, D3), Slot("user", <<"tags", "t1">>, D3),
+               Slot("mid", <<"leaf", "a">>, <<Abs, Sc("s:ml")>>), Slot("user", <<"global", "a">>, <<Abs, Sc("s:ug")>>)>>]
+
 \* the middle chart is used twice (aliases m1, m2) and itself aliases its dependency
 Depth3Alias(d) ==
   [name |-> "d3a", fixed |-> Own,
@@ -163,11 +182,11 @@ SchemaOff(d) ==
 
 -----------------------------------------------------------------------------
 QuickShapes == <<Truth2(D5, D4), Truth2d(D3, D4), Truth1(D3, D3), Tags0, CondGlobal,
-                 Alias2(D3), PlainAlias(D3), Depth3(D3, D3), Depth3Alias(D3), Depth3Twice(D3),
+                 Alias2(D3), PlainAlias(D3), Depth3(D3, D3), Depth3Tags, NoTemplates, Depth3Alias(D3), Depth3Twice(D3),
                  ScopeG(G4("s:ug"), G3("s:rg"), G3("s:um"), G3("s:m")), ScopeOwn, ScopeBare, ScopeAlias, SchemaOff(D3)>>
 
 ThoroughShapes == <<Truth2(D5, D4), Truth2d(D5, D4), Truth1(D5, D4), Tags0, CondGlobal,
-                    Alias2(D4), PlainAlias(D5), Depth3(D3, D5), Depth3Alias(D3), Depth3Twice(D4),
+                    Alias2(D4), PlainAlias(D5), Depth3(D3, D5), Depth3Tags, NoTemplates, Depth3Alias(D3), Depth3Twice(D4),
                     ScopeG(G4("s:ug"), G4("s:rg"), G4("s:um"), G4("s:m")), ScopeOwn, ScopeBare, ScopeAlias, SchemaOff(D3)>>
 
 \* beyond exhaustive reach: everything at once on the depth-3 tree with aliases (sampled with -simulate)
@@ -184,6 +203,7 @@ Wide ==
                Slot("user", <<"tags", "t1">>, D4), Slot("root", <<"tags", "t1">>, D4), Slot("set", <<"tags", "t2">>, D4),
                Slot("user", <<"m1", "leaf", "en">>, D5), Slot("user", <<"mid", "leaf", "en">>, D5), Slot("mid", <<"leaf", "en">>, D3),
                Slot("user", <<"mid", "g2", "en">>, D5), Slot("mid", <<"g2", "en">>, D3), Slot("leaf", <<"en">>, D3),
+               Slot("mid", <<"tags", "t1">>, D3),
                Slot("user", <<"global", "a">>, G4("s:ug")), Slot("root", <<"global", "a">>, G3("s:rg")),
                Slot("user", <<"m1", "global", "a">>, G3("s:u1")), Slot("mid", <<"global", "a">>, G3("s:m")),
                Slot("mid", <<"leaf", "global", "a">>, G2("s:ml")), Slot("leaf", <<"global", "a">>, G3("s:l")),
